@@ -14,6 +14,8 @@ import Avfs.Lemmas.Namei
   (`restrictedDeletion` in FS/MemFS.lean), `remove_posix` covers it without side condition and
   `remove_sticky_refused` is the concrete instance.
 -/
+set_option linter.unusedVariables false   -- `hn`, `hv` of the corollaries for whole-tree views are kept for their callers
+
 namespace Avfs.FS
 open Avfs.Path
 
@@ -124,29 +126,29 @@ def posixMkdir (s : Store) (v : View) : Resolved → MkdirRef
   | .denied => .fail .EACCES
   | .viaLink => .outside
 
-/-- Mkdir of MemFS is mkdir(2) of the reference: same error, or the new entry in the same directory, created with the
-    caller's identity and `perm &^ umask`; nothing else changes (`createDir` allocates one node and adds one entry) -/
-theorem mkdir_posix (s : Store) (root : Ino) (v : View) (hwf : WF s root) (hn : NamesOK s) (hv : ViewOK s v)
-    (hroot : v.root = root) (cs : List Bytes) (hne : cs ≠ []) (hall : ∀ c ∈ cs, c ≠ [] ∧ ∀ x ∈ c, x ≠ SL)
-    (hdots : ∀ c ∈ cs, c ≠ [DOT] ∧ c ≠ [DOT, DOT]) (perm : Nat) :
-    match posixMkdir s v (walkPath s v root cs) with
+/-- GENERAL form of `mkdir_posix`: the view is rooted at ANY directory `v.root` of a heap that is well-formed for its
+    global root `root` (a view made by Sub); the descent starts at `v.root`. -/
+theorem mkdir_posix_gen (s : Store) (root : Ino) (v : View) (hwf : WF s root)
+    (hvr : ∃ m ch, s.get v.root = some (.dir m ch)) (cs : List Bytes) (hne : cs ≠ [])
+    (hall : ∀ c ∈ cs, c ≠ [] ∧ ∀ x ∈ c, x ≠ SL) (hdots : ∀ c ∈ cs, c ≠ [DOT] ∧ c ≠ [DOT, DOT]) (perm : Nat) :
+    match posixMkdir s v (walkPath s v v.root cs) with
     | .fail e => mkdir s v (SL :: joinWith SL cs) perm = (s, .err e)
     | .create par name => name = cs.getLast hne ∧
         mkdir s v (SL :: joinWith SL cs) perm = ((createDir s v par name perm).1, .ok .unit)
     | .outside => True := by
-  have h := searchNode_eq_walkPath s root v hwf hn hv hroot cs hall hdots .lstat
-  have hp := searchNode_part s root v hwf hn hv hroot cs hne hall hdots .lstat
+  have h := searchNode_eq_walkPath_gen s root v hwf hvr cs hall hdots .lstat
+  have hp := searchNode_part_gen s root v hwf hvr cs hne hall hdots .lstat
   obtain ⟨c0, rest, rfl⟩ : ∃ c0 rest, cs = c0 :: rest := by
     cases cs with
     | nil => exact absurd rfl hne
     | cons a b => exact ⟨a, b, rfl⟩
-  cases hw : walkPath s v root (c0 :: rest) with
+  cases hw : walkPath s v v.root (c0 :: rest) with
   | found par c =>
-    simp only [hw] at h
+    simp only [hw, Agrees] at h
     simp [posixMkdir, mkdir, h.1, SErr.toErr]
   | missingLast par name =>
-    simp only [hw, PartAgrees] at h hp
-    obtain ⟨hname, hnone, _⟩ := walkPath_missingLast rest c0 root par name hw
+    simp only [hw, Agrees, PartAgrees] at h hp
+    obtain ⟨hname, hnone, _⟩ := walkPath_missingLast rest c0 v.root par name hw
     obtain ⟨he, _, hpar, hlast⟩ := h
     simp only [posixMkdir]
     by_cases hd : dirPerm s par (omWrite ||| omLookup) v = true
@@ -157,15 +159,28 @@ theorem mkdir_posix (s : Store) (root : Ino) (v : View) (hwf : WF s root) (hn : 
     · simp only [hd]
       simp [mkdir, he, hpar, hlast, hd]
   | missingDir =>
-    simp only [hw] at h
+    simp only [hw, Agrees] at h
     simp [posixMkdir, mkdir, h.1, h.2, SErr.toErr]
   | notDir =>
-    simp only [hw] at h
+    simp only [hw, Agrees] at h
     simp [posixMkdir, mkdir, h, SErr.toErr]
   | denied =>
-    simp only [hw] at h
+    simp only [hw, Agrees] at h
     simp [posixMkdir, mkdir, h, SErr.toErr]
   | viaLink => simp [posixMkdir]
+
+/-- Mkdir of MemFS is mkdir(2) of the reference: same error, or the new entry in the same directory, created with the
+    caller's identity and `perm &^ umask`; nothing else changes (`createDir` allocates one node and adds one entry) -/
+theorem mkdir_posix (s : Store) (root : Ino) (v : View) (hwf : WF s root) (hn : NamesOK s) (hv : ViewOK s v)
+    (hroot : v.root = root) (cs : List Bytes) (hne : cs ≠ []) (hall : ∀ c ∈ cs, c ≠ [] ∧ ∀ x ∈ c, x ≠ SL)
+    (hdots : ∀ c ∈ cs, c ≠ [DOT] ∧ c ≠ [DOT, DOT]) (perm : Nat) :
+    match posixMkdir s v (walkPath s v root cs) with
+    | .fail e => mkdir s v (SL :: joinWith SL cs) perm = (s, .err e)
+    | .create par name => name = cs.getLast hne ∧
+        mkdir s v (SL :: joinWith SL cs) perm = ((createDir s v par name perm).1, .ok .unit)
+    | .outside => True := by
+  subst hroot
+  exact mkdir_posix_gen s v.root v hwf (get_of_isDirAt hwf.rootDir) cs hne hall hdots perm
 
 /-- unlink(2) / rmdir(2) as os.Remove combines them -/
 inductive RemoveRef
@@ -189,30 +204,27 @@ def posixRemove (s : Store) (v : View) : Resolved → RemoveRef
   | .denied => .fail .EACCES
   | .viaLink => .outside
 
-/-- Remove of MemFS is the reference: same error, or the entry named by the last component is erased from its
-    directory and the node released once (`deleteNode`: one link less).
-    Restricted deletion is part of the statement: in a directory with the S_ISVTX bit, a caller who is not
-    administrator and owns neither the directory nor the entry is refused with EPERM by both (`remove_sticky_refused`).
-    One corner is excluded, a divergence of MemFS:
-    * the root (`hne`): MemFS answers EINVAL (`remove_root`), POSIX / Linux EBUSY. -/
-theorem remove_posix (s : Store) (root : Ino) (v : View) (hwf : WF s root) (hn : NamesOK s) (hv : ViewOK s v)
-    (hroot : v.root = root) (cs : List Bytes) (hne : cs ≠ []) (hall : ∀ c ∈ cs, c ≠ [] ∧ ∀ x ∈ c, x ≠ SL)
-    (hdots : ∀ c ∈ cs, c ≠ [DOT] ∧ c ≠ [DOT, DOT]) :
-    match posixRemove s v (walkPath s v root cs) with
+/-- GENERAL form of `remove_posix` (view rooted at any directory `v.root`; `root` is the root of the whole tree). The
+    root of the VIEW is excluded by `hne` (EINVAL: `remove_root`); every other entry of the subtree is removed as
+    through the whole tree: `c == r.parent` never holds for an entry (`no_self_edge`). -/
+theorem remove_posix_gen (s : Store) (root : Ino) (v : View) (hwf : WF s root)
+    (hvr : ∃ m ch, s.get v.root = some (.dir m ch)) (cs : List Bytes) (hne : cs ≠ [])
+    (hall : ∀ c ∈ cs, c ≠ [] ∧ ∀ x ∈ c, x ≠ SL) (hdots : ∀ c ∈ cs, c ≠ [DOT] ∧ c ≠ [DOT, DOT]) :
+    match posixRemove s v (walkPath s v v.root cs) with
     | .fail e => remove s v (SL :: joinWith SL cs) = (s, .err e)
     | .unlink par c =>
         remove s v (SL :: joinWith SL cs) = (deleteNode (removeChild s par (cs.getLast hne)) c, .ok .unit)
     | .outside => True := by
-  have h := searchNode_eq_walkPath s root v hwf hn hv hroot cs hall hdots .lstat
-  have hp := searchNode_part s root v hwf hn hv hroot cs hne hall hdots .lstat
+  have h := searchNode_eq_walkPath_gen s root v hwf hvr cs hall hdots .lstat
+  have hp := searchNode_part_gen s root v hwf hvr cs hne hall hdots .lstat
   obtain ⟨c0, rest, rfl⟩ : ∃ c0 rest, cs = c0 :: rest := by
     cases cs with
     | nil => exact absurd rfl hne
     | cons a b => exact ⟨a, b, rfl⟩
-  cases hw : walkPath s v root (c0 :: rest) with
+  cases hw : walkPath s v v.root (c0 :: rest) with
   | found par c =>
-    simp only [hw, PartAgrees] at h hp
-    obtain ⟨hedge, hpd, _⟩ := walkPath_found rest c0 root par c hw
+    simp only [hw, Agrees, PartAgrees] at h hp
+    obtain ⟨hedge, hpd, _⟩ := walkPath_found rest c0 v.root par c hw
     obtain ⟨he, hc, hpar⟩ := h
     have hcp : (c == par) = false := by
       have := no_self_edge hwf hpd (n := (c0 :: rest).getLast (by simp))
@@ -237,23 +249,81 @@ theorem remove_posix (s : Store) (root : Ino) (v : View) (hwf : WF s root) (hn :
           | symlink ms lk => simp [remove, he, hc, hpar, hcp, hd, hst, hg, hp, hedge]
     · simp [remove, he, hc, hpar, hcp, hd]
   | missingLast par name =>
-    simp only [hw] at h
+    simp only [hw, Agrees] at h
     simp [posixRemove, remove, h.1, h.2.1, SErr.toErr]
   | missingDir =>
-    simp only [hw] at h
+    simp only [hw, Agrees] at h
     simp [posixRemove, remove, h.1, SErr.toErr]
   | notDir =>
-    simp only [hw] at h
+    simp only [hw, Agrees] at h
     simp [posixRemove, remove, h, SErr.toErr]
   | denied =>
-    simp only [hw] at h
+    simp only [hw, Agrees] at h
     simp [posixRemove, remove, h, SErr.toErr]
   | viaLink => simp [posixRemove]
+
+/-- Remove of MemFS is the reference: same error, or the entry named by the last component is erased from its
+    directory and the node released once (`deleteNode`: one link less).
+    Restricted deletion is part of the statement: in a directory with the S_ISVTX bit, a caller who is not
+    administrator and owns neither the directory nor the entry is refused with EPERM by both (`remove_sticky_refused`).
+    One corner is excluded, a divergence of MemFS:
+    * the root (`hne`): MemFS answers EINVAL (`remove_root`), POSIX / Linux EBUSY. -/
+theorem remove_posix (s : Store) (root : Ino) (v : View) (hwf : WF s root) (hn : NamesOK s) (hv : ViewOK s v)
+    (hroot : v.root = root) (cs : List Bytes) (hne : cs ≠ []) (hall : ∀ c ∈ cs, c ≠ [] ∧ ∀ x ∈ c, x ≠ SL)
+    (hdots : ∀ c ∈ cs, c ≠ [DOT] ∧ c ≠ [DOT, DOT]) :
+    match posixRemove s v (walkPath s v root cs) with
+    | .fail e => remove s v (SL :: joinWith SL cs) = (s, .err e)
+    | .unlink par c =>
+        remove s v (SL :: joinWith SL cs) = (deleteNode (removeChild s par (cs.getLast hne)) c, .ok .unit)
+    | .outside => True := by
+  subst hroot
+  exact remove_posix_gen s v.root v hwf (get_of_isDirAt hwf.rootDir) cs hne hall hdots
 
 /-- DIVERGENCE (recorded): Remove("/") fails with EINVAL on MemFS; rmdir("/") is EBUSY (POSIX, Linux) -/
 theorem remove_root (s : Store) (v : View) : remove s v [SL] = (s, .err .EINVAL) := by
   obtain ⟨he, hc, hpar, _⟩ := searchNode_root s v .lstat
   simp [remove, he, hc, hpar]
+
+/-- GENERAL form of `stat_posix` (view rooted at any directory `v.root`; `root` is the root of the whole tree) -/
+theorem stat_posix_gen (s : Store) (root : Ino) (v : View) (hwf : WF s root)
+    (hvr : ∃ m ch, s.get v.root = some (.dir m ch)) (cs : List Bytes) (hne : cs ≠ [])
+    (hall : ∀ c ∈ cs, c ≠ [] ∧ ∀ x ∈ c, x ≠ SL) (hdots : ∀ c ∈ cs, c ≠ [DOT] ∧ c ≠ [DOT, DOT]) (m : SlMode) :
+    (stat s v (SL :: joinWith SL cs) m).1 = s ∧
+    match walkPath s v v.root cs with
+    | .found _ c => ∃ i, fillStat s c (cs.getLast hne) = some i ∧ (stat s v (SL :: joinWith SL cs) m).2 = .ok (.info i)
+    | .missingLast _ _ => (stat s v (SL :: joinWith SL cs) m).2 = .err .ENOENT
+    | .missingDir => (stat s v (SL :: joinWith SL cs) m).2 = .err .ENOENT
+    | .notDir => (stat s v (SL :: joinWith SL cs) m).2 = .err .ENOTDIR
+    | .denied => (stat s v (SL :: joinWith SL cs) m).2 = .err .EACCES
+    | .viaLink => True := by
+  refine ⟨px_stat_store s v _ m, ?_⟩
+  have h := searchNode_eq_walkPath_gen s root v hwf hvr cs hall hdots m
+  have hp := searchNode_part_gen s root v hwf hvr cs hne hall hdots m
+  obtain ⟨c0, rest, rfl⟩ : ∃ c0 rest, cs = c0 :: rest := by
+    cases cs with
+    | nil => exact absurd rfl hne
+    | cons a b => exact ⟨a, b, rfl⟩
+  cases hw : walkPath s v v.root (c0 :: rest) with
+  | found par c =>
+    simp only [hw, Agrees, PartAgrees] at h hp
+    obtain ⟨hedge, _, _⟩ := walkPath_found rest c0 v.root par c hw
+    obtain ⟨he, hc, hpar⟩ := h
+    have halloc := hwf.alloc par _ c hedge
+    obtain ⟨i, hi⟩ := px_fillStat_some s c ((c0 :: rest).getLast (by simp)) halloc
+    exact ⟨i, hi, by simp [stat, he, hc, hp, hi]⟩
+  | missingLast par name =>
+    simp only [hw, Agrees] at h
+    simp [stat, h.1, h.2.1, SErr.toErr]
+  | missingDir =>
+    simp only [hw, Agrees] at h
+    simp [stat, h.1, SErr.toErr]
+  | notDir =>
+    simp only [hw, Agrees] at h
+    simp [stat, h, SErr.toErr]
+  | denied =>
+    simp only [hw, Agrees] at h
+    simp [stat, h, SErr.toErr]
+  | viaLink => trivial
 
 /-- lstat(2) / stat(2) without links on the way: the attributes of the resolved node under the name of the last
     component; the state never changes. (The root is excluded by `hne`: see `stat_root`.) -/
@@ -268,34 +338,8 @@ theorem stat_posix (s : Store) (root : Ino) (v : View) (hwf : WF s root) (hn : N
     | .notDir => (stat s v (SL :: joinWith SL cs) m).2 = .err .ENOTDIR
     | .denied => (stat s v (SL :: joinWith SL cs) m).2 = .err .EACCES
     | .viaLink => True := by
-  refine ⟨px_stat_store s v _ m, ?_⟩
-  have h := searchNode_eq_walkPath s root v hwf hn hv hroot cs hall hdots m
-  have hp := searchNode_part s root v hwf hn hv hroot cs hne hall hdots m
-  obtain ⟨c0, rest, rfl⟩ : ∃ c0 rest, cs = c0 :: rest := by
-    cases cs with
-    | nil => exact absurd rfl hne
-    | cons a b => exact ⟨a, b, rfl⟩
-  cases hw : walkPath s v root (c0 :: rest) with
-  | found par c =>
-    simp only [hw, PartAgrees] at h hp
-    obtain ⟨hedge, _, _⟩ := walkPath_found rest c0 root par c hw
-    obtain ⟨he, hc, hpar⟩ := h
-    have halloc := hwf.alloc par _ c hedge
-    obtain ⟨i, hi⟩ := px_fillStat_some s c ((c0 :: rest).getLast (by simp)) halloc
-    exact ⟨i, hi, by simp [stat, he, hc, hp, hi]⟩
-  | missingLast par name =>
-    simp only [hw] at h
-    simp [stat, h.1, h.2.1, SErr.toErr]
-  | missingDir =>
-    simp only [hw] at h
-    simp [stat, h.1, SErr.toErr]
-  | notDir =>
-    simp only [hw] at h
-    simp [stat, h, SErr.toErr]
-  | denied =>
-    simp only [hw] at h
-    simp [stat, h, SErr.toErr]
-  | viaLink => trivial
+  subst hroot
+  exact stat_posix_gen s v.root v hwf (get_of_isDirAt hwf.rootDir) cs hne hall hdots m
 
 /-- DIVERGENCE from `os`: Stat("/") / Lstat("/") of MemFS name the root "" (`pi.Part()` at the end of the path);
     os.Stat("/").Name() is "/" (stat(2) itself returns no name) -/
